@@ -2,6 +2,7 @@
   C04 helper: random access (`sequence_bytes`) through the index of a record laid out with uniform line width.
 -/
 import AgpTpf.Proofs.C04Loop
+import AgpTpf.Proofs.SeekChk
 namespace AgpTpf.C04
 open AgpTpf
 
@@ -180,6 +181,13 @@ theorem sequenceBytes_slice {w : Nat} {le last : Bytes} {full : List Bytes} (h :
         ((A.length + posOf w le.length ((a / w + 1) * w) : Nat) : Int) := by
       rw [posOf_mul _ _ _ hw]; simp only [posOf]; rw [Nat.add_mul, Nat.one_mul]; omega
     simp only [hline, if_false, hd1, hd1len, hpos1]
+    -- the line terminator has `le.length ≥ 0` bytes: the checked whole-lines loop is the unchecked one
+    have hchk : ∀ k acc, readWholeLinesChk (A ++ bodyOf le full last ++ B) (w : Int) (le.length : Int) k
+          ((A.length + posOf w le.length ((a / w + 1) * w) : Nat) : Int) acc =
+        .ok (readWholeLines (A ++ bodyOf le full last ++ B) (w : Int) (le.length : Int) k
+          ((A.length + posOf w le.length ((a / w + 1) * w) : Nat) : Int) acc) :=
+      fun k acc => readWholeLinesChk_nonneg _ _ _ (by omega) k _ acc (by omega)
+    simp only [hchk]
     by_cases hr : e % w = 0
     · have hk : ((((e - 1) / w : Nat) : Int) - ((a / w : Nat) : Int)).toNat = (e - 1) / w - a / w := by omega
       have hee := pred_div_of_mod_eq hw (by omega) hr
